@@ -74,9 +74,11 @@ OK(p, e) ==
                /\ e.len = ALen(NewPairs(p, e))
          [] OTHER -> FALSE
 
-NextReset(i) == IF \E j \in (i+1)..N : Trace[j].op = "reset"
-                THEN CHOOSE j \in (i+1)..N : Trace[j].op = "reset" /\ \A x \in (i+1)..(j-1) : Trace[x].op # "reset"
-                ELSE N + 1
+\* after an unexplained event, resume where the state is re-established
+Resume(e) == e.op \in {"reset", "restore"}
+RECURSIVE NextReset(_)
+NextReset(i) == IF i + 1 > N THEN N + 1
+                ELSE IF Resume(Trace[i + 1]) THEN i + 1 ELSE NextReset(i + 1)
 
 Init == l = 1 /\ pairs = AV(<<>>) /\ bad = {}
 
@@ -89,5 +91,5 @@ Next == /\ l <= N
 Spec == Init /\ [][Next]_vars
 
 \* reported once, in the final state
-Report == (l = N + 1) => PrintT(<<"VERIF_DONE", N, bad>>)
+Report == (l = N + 1) => PrintT("VERIF_DONE " \o ToJson([n |-> N, bad |-> bad]))
 =============================================================================
